@@ -67,6 +67,10 @@ pub fn scenarios() -> Vec<Script> {
         Script { name: "live timer of a finished search, then a depth-limited search".into(), lines: vec![n(&p0), n("go movetime 1 depth 1"), w(&p1), w("go depth 1"), w("quit")] },
         Script { name: "ucinewgame mid-search".into(), lines: vec![n(&p0), n("go infinite"), n("ucinewgame"), w(&p1), w("go depth 1"), w("quit")] },
         Script { name: "quit mid-search".into(), lines: vec![n(&p0), n("go infinite"), n("quit")] },
+        // the engine must leave on `quit` / end of input also when the search it abandons has a limit of its own that
+        // is far away (a depth it will not reach for hours): nobody is left to stop it, so waiting for it is a hang
+        Script { name: "quit during a depth-limited search far from its limit".into(), lines: vec![n("position startpos"), n("go depth 40"), n("quit")] },
+        Script { name: "end of input during a depth-limited search far from its limit".into(), lines: vec![n("position startpos"), n("go depth 40"), n("<EOF>")] },
         Script { name: "clock go, then the next move of the game".into(), lines: vec![n(&p0), n("go wtime 1000 btime 1000 winc 0 binc 0"), w(&p1), w("go wtime 900 btime 1000 winc 0 binc 0"), w("quit")] },
         Script { name: "isready while searching, twice".into(), lines: vec![n(&p0), n("go infinite"), n("isready"), n("isready"), n("stop"), w("quit")] },
         Script { name: "wait then position and go".into(), lines: vec![n(&p0), n("go depth 1"), n("wait"), n(&p1), n("go depth 1"), n("wait"), w("quit")] },
@@ -647,6 +651,9 @@ pub fn real_sessions(acc: &mut Acc) -> Option<String> {
         ("end of input while idle", vec![("position startpos", ""), ("go depth 1", "bestmove")], true),
         ("end of input while searching", vec![("position startpos", ""), ("go infinite", "info depth")], true),
         ("quit while searching", vec![("position startpos", ""), ("go infinite", "info depth"), ("quit", "")], false),
+        ("quit during a depth-limited search far from its limit", vec![("position startpos", ""), ("go depth 60", "info depth"), ("quit", "")], false),
+        ("quit during a time-limited search far from its limit", vec![("position startpos", ""), ("go movetime 3600000", "info depth"), ("quit", "")], false),
+        ("end of input during a depth-limited search far from its limit", vec![("position startpos", ""), ("go depth 60", "info depth")], true),
     ];
     let res = par_items(&scripts, &|_, (name, steps, eof), acc| {
         acc.states += 1;
@@ -713,7 +720,7 @@ pub fn run(tier: &str, seed: i64) -> Outcome {
     let acc = run_workers(&self_exe(), args, 16);
     let n = all_scripts(tier).len();
     let bound = if tier == "quick" { 2 } else { 3 };
-    let reports = vec![SpaceReport { name: format!("E5: {} scripts (all words of length <= {} over the 9-command alphabet after `position P0`, eager and reactive GUI, plus 12 (quick) / 13 scenario scripts) x all interleavings with deviation cost <= {}", n, if tier == "quick" { 3 } else { 4 }, bound), states: acc.states, exhaustive: !acc.counts.contains_key("scripts whose exploration hit the execution cap (not exhaustive for them)"), note: format!("[{:.1}s, 16 worker processes]", t0.elapsed().as_secs_f64()) }];
+    let reports = vec![SpaceReport { name: format!("E5: {} scripts (all words of length <= {} over the 9-command alphabet after `position P0`, eager and reactive GUI, plus 14 (quick) / 15 scenario scripts) x all interleavings with deviation cost <= {}", n, if tier == "quick" { 3 } else { 4 }, bound), states: acc.states, exhaustive: !acc.counts.contains_key("scripts whose exploration hit the execution cap (not exhaustive for them)"), note: format!("[{:.1}s, 16 worker processes]", t0.elapsed().as_secs_f64()) }];
     let (mut acc, mut reports) = (acc, reports);
     let t1 = std::time::Instant::now();
     let deep = deep_sessions(tier);
@@ -726,7 +733,7 @@ pub fn run(tier: &str, seed: i64) -> Outcome {
     let t3 = std::time::Instant::now();
     let mut real = Acc::new();
     match real_sessions(&mut real) {
-        Some(bin) => reports.push(SpaceReport { name: format!("real binary ({}): 11 real-time sessions, verdict only on 'no answer within 90 s' / exit status / panic text", bin), states: real.states, exhaustive: true, note: format!("[{:.1}s]", t3.elapsed().as_secs_f64()) }),
+        Some(bin) => reports.push(SpaceReport { name: format!("real binary ({}): {} real-time sessions, verdict only on 'no answer within 90 s' / exit status / panic text", bin, real.states), states: real.states, exhaustive: true, note: format!("[{:.1}s]", t3.elapsed().as_secs_f64()) }),
         None => real.errors.push("VERIF_REAL_BIN not set or missing: the real-binary sessions were not run".into()),
     }
     acc.merge(real);
